@@ -899,9 +899,10 @@ fn lfo_curve_case(r: &mut Rng) -> Result<u64, String> {
 	let sr = *r.pick(&[1000u32, 8000, 48000]);
 	let ibs = *r.pick(&[1usize, 8, 64]);
 	let wave = gen_wave(r);
-	let f = if r.chance(0.1) { 0.0 } else { r.f64_in(0.0, 0.45 * sr as f64 / ibs as f64) };
+	// also LFOs faster than the chunk rate (several periods per update) and starting phases of several turns
+	let f = if r.chance(0.1) { 0.0 } else if r.chance(0.25) { r.f64_in(0.0, 3.0 * sr as f64 / ibs as f64) } else { r.f64_in(0.0, 0.45 * sr as f64 / ibs as f64) };
 	let (a, o) = (r.f64_in(-3.0, 3.0), r.f64_in(-3.0, 3.0));
-	let p0 = r.f64_in(0.0, std::f64::consts::TAU);
+	let p0 = if r.chance(0.25) { r.f64_in(0.0, 25.0) } else { r.f64_in(0.0, std::f64::consts::TAU) };
 	let mut rig = Rig::simple(sr, ibs);
 	let lfo = rig.mgr.add_modulator(LfoBuilder::new().waveform(wave.to_kira()).frequency(f).amplitude(a).offset(o).starting_phase(p0)).map_err(|_| "lfo")?;
 	let stamps = Arc::new(Stamps::default());
@@ -933,6 +934,67 @@ fn lfo_curve_case(r: &mut Rng) -> Result<u64, String> {
 		}
 	}
 	Ok(k as u64)
+}
+
+// ---------------------------------------------------------------- clock speed linked to a modulator
+
+/// A clock whose speed follows a moving modulator must advance, in every chunk, by chunk duration x the speed mapped from
+/// the modulator's value of that same chunk (modulators are advanced before clocks).
+fn clock_link_case(r: &mut Rng) -> Result<u64, String> {
+	use kira::clock::ClockSpeed;
+	let sr = 1000u32;
+	let ibs = *r.pick(&[1usize, 4, 16]);
+	let mut rig = Rig::simple(sr, ibs);
+	let moving_lfo = r.chance(0.5);
+	let mut tw = None;
+	let id = if moving_lfo {
+		let f = r.f64_in(0.05, 0.3) * sr as f64 / ibs as f64;
+		let h = rig.mgr.add_modulator(LfoBuilder::new().waveform(Waveform::Triangle).frequency(f).amplitude(0.5).offset(0.5)).map_err(|_| "lfo")?;
+		let id = h.id();
+		std::mem::forget(h);
+		id
+	} else {
+		let h = rig.mgr.add_modulator(TweenerBuilder { initial_value: 0.0 }).map_err(|_| "tw")?;
+		let id = h.id();
+		tw = Some(h);
+		id
+	};
+	let max_tps = r.f64_in(5.0, 400.0);
+	let speed = Value::FromModulator { id, mapping: Mapping { input_range: (0.0, 1.0), output_range: (ClockSpeed::TicksPerSecond(0.0), ClockSpeed::TicksPerSecond(max_tps)), easing: Easing::Linear } };
+	let mut clock = rig.mgr.add_clock(speed).map_err(|_| "clock")?;
+	clock.start();
+	let stamps = Arc::new(Stamps::default());
+	let log = Arc::new(Mutex::new(FxLog { rows: (0..256).map(|_| (0, usize::MAX, vec![0.0; 1])).collect() }));
+	let params = vec![Parameter::new(Value::FromModulator { id, mapping: Map::ident().to_kira() }, 0.0)];
+	let _t = rig.mgr.add_sub_track(TrackBuilder::new().with_effect(ReaderFxBuilder(ReaderFx { params, log: log.clone(), stamps })));
+	let dt = ibs as f64 / sr as f64;
+	let mut prev_t = 0.0f64;
+	let mut prev_m = f64::NAN;
+	let n = r.usize_in(6, 40);
+	let mut checked = 0;
+	for k in 0..n {
+		if let Some(h) = tw.as_mut() {
+			if k == 1 || r.chance(0.1) {
+				h.set(r.f64_in(0.0, 1.0), Tween { duration: Duration::from_secs_f64(dt * r.f64_in(0.0, 12.0)), ..Default::default() });
+			}
+		}
+		rig.callback(ibs);
+		rig.sync();
+		let t = clock.time();
+		let now = t.ticks as f64 + t.fraction;
+		let m = log.lock().unwrap().rows[k].2[0];
+		let inc = now - prev_t;
+		let want = dt * max_tps * m.clamp(0.0, 1.0);
+		let lagged = dt * max_tps * prev_m.clamp(0.0, 1.0);
+		if (inc - want).abs() > 1e-9 * (1.0 + now) {
+			let note = if (inc - lagged).abs() <= 1e-9 * (1.0 + now) { " (that is the modulator's value of the previous chunk: one chunk late)" } else { "" };
+			return Err(format!("chunk {}: a clock whose speed is mapped 0..1 -> 0..{} ticks/s from a modulator advanced by {} ticks in {} s; the modulator's value in this chunk is {}, i.e. {} ticks{} (buffer {}, {})", k + 1, max_tps, inc, dt, m, want, note, ibs, if moving_lfo { "LFO" } else { "tweener" }));
+		}
+		prev_t = now;
+		prev_m = m;
+		checked += 1;
+	}
+	Ok(checked)
 }
 
 // ---------------------------------------------------------------- forward link (known behaviour to be judged)
@@ -985,6 +1047,7 @@ pub fn run(ctx: &mut Ctx) {
 	let mut stamped = 0u64;
 	let mut curve_points = 0u64;
 	let mut fwd_known = 0u64;
+	let mut clock_points = 0u64;
 	let mut extra = [0u64; 3];
 	for i in 0..n {
 		if !ctx.owns("mod", i) {
@@ -1003,6 +1066,10 @@ pub fn run(ctx: &mut Ctx) {
 				0 | 1 => lfo_curve_case(&mut r).map(|k| {
 					curve_points += k;
 					1 << 20
+				}),
+				3 => clock_link_case(&mut r).map(|k| {
+					clock_points += k;
+					3 << 20
 				}),
 				2 => forward_link_case(&mut r).and_then(|same| {
 					if same {
@@ -1045,6 +1112,7 @@ pub fn run(ctx: &mut Ctx) {
 	ctx.count("reads_skipped_value_unknown_to_model", extra[1]);
 	ctx.count("hold_after_removal_checks", extra[2]);
 	ctx.count("lfo_curve_points_checked", curve_points);
+	ctx.count("clock_speed_link_chunks_checked", clock_points);
 	if fwd_known > 0 {
 		ctx.count("forward_link_cases_matching_known_finding", fwd_known);
 		ctx.exclude(FWD_KEY);
